@@ -315,8 +315,12 @@ pub fn bfs<const K: usize>(
                     out.violate(Violation::new(format!("after {:?}: {msg}", a), rec()).tag("kind", "invariant").tag("inv", k).tag("op", opn));
                     continue; // do not explore from corrupted states
                 }
-            } else if invariant(&t2).is_err() {
-                continue;
+            } else if let Err((tag, _)) = invariant(&t2) {
+                // C13 still looks at states whose only flaw is a stale leaf flag: its metrics
+                // (terminals, decisions, depth_stats) read that flag
+                if tag != "isleaf" {
+                    continue;
+                }
             }
             if !seen.contains_key(&after) {
                 let id = states.len();
